@@ -59,6 +59,8 @@ func c11Gen(c *Ctx) *c11Scenario {
 	switch sc.Fn {
 	case "min", "max", "first", "last", "percentile", "mode", "median":
 		sc.PointTimes = g.Bool()
+	case "count", "sum", "mean", "spread", "stddev":
+		sc.PointTimes = g.Chance(1, 3) // "Aggregation functions always use the batch time."
 	}
 	switch sc.Fn {
 	case "count", "sum", "mean", "min", "max":
@@ -83,6 +85,8 @@ func c11Gen(c *Ctx) *c11Scenario {
 				gr.Points = append(gr.Points, p)
 				if sc.Stream && g.Chance(1, 2) {
 					// runs of equal-time points for the stream form
+				} else if sc.Stream && g.Chance(1, 6) && t > w*sc.PeriodS+1 {
+					t -= 2 // a late point: it is a run of its own, not part of the run that is open when it arrives
 				} else {
 					t++
 				}
@@ -122,7 +126,8 @@ type c11Val struct {
 	isF bool
 	i   int64
 	f   float64
-	t   int // seconds
+	t   int    // seconds
+	tag string // the point's tag k (not a group dimension)
 }
 
 func (v c11Val) fl() float64 {
@@ -136,6 +141,7 @@ type c11Out struct {
 	T     int         // output time (s); -1 = do not care
 	Val   interface{} // int64 | float64
 	Multi bool        // value belongs to a multi-point output (order within the window is compared as a multiset)
+	Tag   string      // top/bottom: the tag k of the selected point, "" where the value occurs more than once in the batch
 	Scale float64     // magnitude of the batch's inputs (float tolerance)
 }
 
@@ -293,7 +299,13 @@ func (sc *c11Scenario) reference0(vals []c11Val, tmax int) []c11Out {
 			if sc.Fn == "top" {
 				v = sorted[n-1-i]
 			}
-			out = append(out, c11Out{T: -1, Val: c11Value(v), Multi: true})
+			tag := v.tag
+			for _, o := range vals {
+				if o.tag != v.tag && !c11Less(o, v) && !c11Less(v, o) {
+					tag = "" // the same value with another tag: which of the two points is selected is not defined
+				}
+			}
+			out = append(out, c11Out{T: -1, Val: c11Value(v), Multi: true, Tag: tag})
 		}
 		return out
 	case "elapsed":
@@ -432,6 +444,7 @@ func runC11(c *Ctx) Verdict {
 		t   int
 		val interface{}
 		win int // window index derived from the batch tmax or the point time
+		tag string
 	}
 	got := map[string][]obs{}
 	for _, o := range d.Sinks.Get("AGG") {
@@ -452,7 +465,7 @@ func runC11(c *Ctx) Verdict {
 				if !ok {
 					return Fail("output/field-name", "the output of %s has fields %v, expected a field named %q", sc.Fn, simrt.Keys(p.Fields), field)
 				}
-				got[g] = append(got[g], obs{t: int(p.TimeNs / 1e9), val: v, win: int(o.BCopy.TMaxNs/1e9) - 1})
+				got[g] = append(got[g], obs{t: int(p.TimeNs / 1e9), val: v, win: int(o.BCopy.TMaxNs/1e9) - 1, tag: p.Tags["k"]})
 			}
 		}
 	}
@@ -469,7 +482,7 @@ func runC11(c *Ctx) Verdict {
 				var vals []c11Val
 				for j < len(gr.Points) && gr.Points[j].T == gr.Points[i].T {
 					p := gr.Points[j]
-					vals = append(vals, c11Val{isF: gr.Float[p.T/sc.PeriodS], i: p.I, f: p.F, t: p.T})
+					vals = append(vals, c11Val{isF: gr.Float[p.T/sc.PeriodS], i: p.I, f: p.F, t: p.T, tag: p.Tag})
 					j++
 				}
 				// a run whose field kind changes in the middle (window boundary inside? no: same T) is homogeneous
@@ -495,7 +508,7 @@ func runC11(c *Ctx) Verdict {
 				var vals []c11Val
 				for _, id := range win.Ids {
 					p := gr.Points[id]
-					vals = append(vals, c11Val{isF: gr.Float[p.T/sc.PeriodS], i: p.I, f: p.F, t: p.T})
+					vals = append(vals, c11Val{isF: gr.Float[p.T/sc.PeriodS], i: p.I, f: p.F, t: p.T, tag: p.Tag})
 				}
 				for _, o := range sc.reference(vals, win.T) {
 					want = append(want, o)
@@ -560,13 +573,13 @@ func runC11(c *Ctx) Verdict {
 				for a := wi; a < k; a++ {
 					found := false
 					for b := 0; b < cnt; b++ {
-						if !used[b] && c11Same(want[a].Val, gg[gi2+b].val, want[a].Scale) {
+						if !used[b] && c11Same(want[a].Val, gg[gi2+b].val, want[a].Scale) && (want[a].Tag == "" || want[a].Tag == gg[gi2+b].tag) {
 							used[b], found = true, true
 							break
 						}
 					}
 					if !found {
-						v := Fail("aggregate/value", "%s: window %d lacks the value %v.\n%s", sc.Fn, wantWin[wi], want[a].Val, describe())
+						v := Fail("aggregate/value", "%s: window %d lacks the value %v (carrying tag k=%q of the point it was selected from).\n%s", sc.Fn, wantWin[wi], want[a].Val, want[a].Tag, describe())
 						v.Shape = shape
 						return v
 					}
@@ -610,7 +623,7 @@ func init() {
 	Register(&Prop{
 		ID:  "C11",
 		Run: runC11,
-		Rule: "case = one of 19 aggregation functions (with percentile argument, top/bottom n, movingAverage window, as(), usePointTimes()) below a window emitted every 10s with period 10s (tumbling), 3s (gaps, empty batches) or 20s (overlapping: every point is aggregated twice) (or, for count/sum/mean/min/max, directly on the stream with runs of equal-time points) over 1-3 groups, each with 1-4 windows of 0-8 values that are int or float per window (duplicates, negatives, magnitudes up to 1e15 / 1e300, field kind changing between windows), one concurrent writer per group; " +
+		Rule: "case = one of 19 aggregation functions (with percentile argument, top/bottom n, movingAverage window, as(), usePointTimes()) below a window emitted every 10s with period 10s (tumbling), 3s (gaps, empty batches) or 20s (overlapping: every point is aggregated twice) (or, for count/sum/mean/min/max, directly on the stream with runs of equal-time points and an occasional late point) over 1-3 groups, each with 1-4 windows of 0-8 values that are int or float per window (duplicates, negatives, magnitudes up to 1e15 / 1e300, field kind changing between windows), one concurrent writer per group; " +
 			"non-trivial = the definition gives at least one output; distinct = distinct (scenario, interleaving signature) pairs",
 		Real:        []string{"InfluxQLNode (BeginBatch/BatchPoint/EndBatch, stream mode, streaming transformations), generated reduce contexts (influxql.gen.go) on the influxdb query reducers", "WindowNode, FromNode/groupBy, LogNode, TaskMaster, httpd write endpoint"},
 		Stub:        []string{"log sink below the aggregation node"},
